@@ -16,14 +16,15 @@ open PrologVerif PrologVerif.VM PrologVerif.DecompileCompile PrologVerif.Activat
 /-! ## continuations as goal lists -/
 
 /-- the pending goals of a continuation: each with the cut parent of the activation it belongs to -/
-inductive ContGoals (s : Bool) (tmpl : Term) (max : Nat) : Cont → List (Term × Nat) → Prop
-  | collect : ContGoals s tmpl max (.collect tmpl max) []
+inductive ContGoals (s : Bool) (mo : Option Nat) (tmpl : Term) (max : Nat) : Cont → List (Term × Nat) → Prop
+  | collect : mo = none → ContGoals s mo tmpl max (.collect tmpl max) []
+  | done : mo.isSome = true → ContGoals s mo tmpl max .done []
   | exec {tbl vars : List Nat} {ρ : Nat → Nat} {ops : List Op} {gs : List Rep} {cp : Nat} {k : Cont}
       {G : List (Term × Nat)} :
       BodySem tbl ops gs → Renames tbl vars ρ →
       (∀ g ∈ gs, g = .atom "!" ∨ stepGoal s (goalTerm g) = true) →
-      ContGoals s tmpl max k G →
-      ContGoals s tmpl max (.exec (ops ++ [.exit]) vars cp k)
+      ContGoals s mo tmpl max k G →
+      ContGoals s mo tmpl max (.exec (ops ++ [.exit]) vars cp k)
         (gs.map (fun g => ((goalTerm g).rename ρ, cp)) ++ G)
 
 theorem hornGoal_rename (ρ : Nat → Nat) (t : Term) : hornGoal (t.rename ρ) = hornGoal t := by
@@ -114,22 +115,29 @@ def cutPromise (pc : List Op) (vars : List Nat) (k : Cont) (env : Env) (cp : Nat
   { delayed := [.afterCut pc vars k [] [] env cp], cutParent := some cp }
 
 /-- **one step of a continuation**: record an answer, arrive at the first goal, or cut -/
-theorem cont_step {s : Bool} {tmpl : Term} {max : Nat} {K : Cont} {G : List (Term × Nat)} (h : ContGoals s tmpl max K G) :
+theorem cont_step {s : Bool} {tmpl : Term} {max : Nat} {K : Cont} {G : List (Term × Nat)} (h : ContGoals s mo tmpl max K G) :
     ∀ (fuel : Nat) (env : Env) (m : MS) (res : Pr × MS), applyCont fuel K env m = some res →
-    (G = [] ∧ res = (if (recordAnswer tmpl env m).user.answers.length ≥ max then okP else failP,
-        recordAnswer tmpl env m)) ∨
-    (∃ g cp G' K' fuel', G = (g, cp) :: G' ∧ ContGoals s tmpl max K' G' ∧ fuel' < fuel ∧ stepGoal s g = true ∧
+    (G = [] ∧ ((mo = none ∧ res = (if (recordAnswer tmpl env m).user.answers.length ≥ max then okP else failP,
+        recordAnswer tmpl env m)) ∨ (mo.isSome = true ∧ res = (okP, m)))) ∨
+    (∃ g cp G' K' fuel', G = (g, cp) :: G' ∧ ContGoals s mo tmpl max K' G' ∧ fuel' < fuel ∧ stepGoal s g = true ∧
       arrive fuel' (functorName g) (argList g) K' env m = some res) ∨
-    (∃ cp G' pc vars k, G = (.atom "!", cp) :: G' ∧ ContGoals s tmpl max (.exec pc vars cp k) G' ∧
+    (∃ cp G' pc vars k, G = (.atom "!", cp) :: G' ∧ ContGoals s mo tmpl max (.exec pc vars cp k) G' ∧
       res = (cutPromise pc vars k env cp, m)) := by
   induction h with
-  | collect =>
+  | collect hmo =>
     intro fuel env m res hrun
     cases fuel with
     | zero => simp [applyCont] at hrun
     | succ n =>
       rw [applyCont] at hrun
-      exact Or.inl ⟨rfl, (Option.some.inj hrun).symm⟩
+      exact Or.inl ⟨rfl, Or.inl ⟨hmo, (Option.some.inj hrun).symm⟩⟩
+  | done hmo =>
+    intro fuel env m res hrun
+    cases fuel with
+    | zero => simp [applyCont] at hrun
+    | succ n =>
+      rw [applyCont] at hrun
+      exact Or.inl ⟨rfl, Or.inr ⟨hmo, (Option.some.inj hrun).symm⟩⟩
   | @exec tbl vars ρ ops gs cp k G hsem hren hgs hk ih =>
     intro fuel env m res hrun
     cases fuel with
@@ -151,7 +159,7 @@ theorem cont_step {s : Bool} {tmpl : Term} {max : Nat} {K : Cont} {G : List (Ter
           · exact Or.inr (Or.inr ⟨cp', G', pc, vars', k', by simpa using h1, h2, h3⟩)
       | cons g gs' =>
         obtain ⟨seg, ops', rfl, _, hb', hcutc, hcall⟩ := first_goal hsem
-        have hk' : ContGoals s tmpl max (.exec (ops' ++ [.exit]) vars cp k)
+        have hk' : ContGoals s mo tmpl max (.exec (ops' ++ [.exit]) vars cp k)
             (gs'.map (fun g => ((goalTerm g).rename ρ, cp)) ++ G) :=
           .exec hb' hren (fun g' hg' => hgs g' (by simp [hg'])) hk
         by_cases hc : g = .atom "!"
